@@ -12,6 +12,7 @@ Protocol vocabulary
   it_new, it_next, it_remove, it_remove_noout     the session iterator (any add/remove/remove_all
                            invalidates it: later it_* print `noiter`)
   destroy
+  new ... phys=quiet       (scale stream) between `observe`s the trie dump is replaced by a checksum of its text
 
 Known finding X5: the empty key aliases the root node.  `x5_excluded(key)` is the exclusion
 predicate; no main stream emits the empty key (corpus/tsttable/defect_X5_empty_key.ops does).
@@ -211,6 +212,152 @@ class TstGen:
             ops.append("destroy")
             out.append(ops)
         return out
+
+    # ------------------------------------------------------------------ scale
+    def scale(self, rng, tier):
+        """a few LONG histories on big tries: a comb (keys p^i q for i < depth branching off p^depth: more than 100
+        sibling subtrees pending at once for any walk that keeps a work list), wide fans (130..200 different first
+        bytes incl. bytes >= 0x80), deep keys (length 300..420, refused adds that roll back long chains, removals
+        that prune long chains); after the fill several hundred operations: foreach, a full iterator sweep with
+        removals at the front / middle / back, direct removes, re-adds, gets at the boundaries, remove_all"""
+        shapes = [self._comb, self._fan, self._deep, self._mixed]
+        if tier == "quick":
+            plan = [self._comb, self._fan, self._deep, self._mixed, rng.choice([self._comb, self._fan])]
+        else:
+            plan = [shapes[i % 4] for i in range(28)]
+        out = [self._scale_session(rng, shape(rng)) for shape in plan]
+        # one comb in the plain form (library comparator, right branches, spine first) in every run
+        out[0] = self._scale_session(rng, self._comb(rng, plain=True))
+        return out
+
+    def _scale_session(self, rng, shape):
+        cm, fill, keys = shape
+        hist = ["new obs=sparse phys=quiet" + ("" if cm == "s" else f" cmp={cm}")]
+        body = list(fill) + ["size", "foreach_key", "foreach_value"] + self._scale_ops(rng, keys)
+        gap = 40
+        for op in body:
+            if gap <= 0:
+                hist.append("observe")
+                gap = rng.randint(45, 60)
+            hist.append(op)
+            gap -= 1
+        return hist + ["observe", "remove_all", "size", "foreach_key", "observe", "destroy"]
+
+    def _scale_ops(self, rng, keys):
+        """what follows the fill; `keys` in insertion order"""
+        ops, present = [], list(keys)
+        srt = sorted(present)
+        edge = [srt[0], srt[-1], srt[len(srt) // 3], srt[len(srt) // 2], present[0], present[-1]]
+        for k in edge:
+            ops += [f"get k={hx(k)}", f"contains k={hx(k)}", f"get k={hx(k + b'~')}"]
+            if len(k) > 1:
+                ops.append(f"contains k={hx(k[:-1])}")
+        # iterator sweep: remove the first, the last, every third, one double remove (X7)
+        n = len(present)
+        ops.append("it_new")
+        for j in range(n + 2):
+            ops.append("it_next")
+            if j == 0 or j == n - 1 or j % 3 == 1:
+                ops.append("it_remove" if j % 2 else "it_remove_noout")
+                if j == 7:
+                    ops.append("it_remove")
+            if j == n // 2:
+                ops += ["foreach_key", "size"]
+        ops += ["foreach_key", "foreach_value", "size"]
+        # direct operations over the whole universe (present or not any more): front, middle, back, random
+        univ = list(keys)
+        for k in [srt[0], srt[-1], srt[n // 3], srt[n // 2], keys[0], keys[-1]]:
+            ops += [f"remove k={hx(k)}", f"get k={hx(k)}", f"add k={hx(k)} v={rand_val(rng)}", f"get k={hx(k)}"]
+        for i in range(rng.randint(160, 240)):
+            k = rng.choice(univ)
+            r = rng.random()
+            if r < 0.35:
+                ops.append(f"add k={hx(k)} v={rand_val(rng)}")
+            elif r < 0.65:
+                ops.append(f"{'remove' if rng.random() < 0.6 else 'remove_noout'} k={hx(k)}")
+            elif r < 0.85:
+                ops.append(f"{rng.choice(['get', 'contains'])} k={hx(k)}")
+            elif r < 0.93:
+                ops.append(rng.choice(["foreach_key", "foreach_value", "size"]))
+            else:
+                ops.append("it_new")
+                for _ in range(rng.randint(3, 40)):
+                    ops.append("it_next")
+                    if rng.random() < 0.4:
+                        ops.append(rng.choice(["it_remove", "it_remove_noout"]))
+        ops += ["foreach_key", "foreach_value"]
+        return ops
+
+    def _comb(self, rng, plain=False):
+        """p^depth, then p^i q for every i < depth (q sorts after p: right branches; some r before p: left ones)"""
+        depth = rng.randint(120, 170)
+        cm = rng.choice(["s", "s", "u", "r"])
+        p, q, r = rng.choice([(b"a", b"b", b"A"), (b"m", b"\xe9", b"\x05"), (b"\x90", b"z", b"\x81"), (b"a", b"b", b"\xfa")])
+        spine = p * depth
+        branches = [p * i + q for i in range(depth)]
+        branches += [p * i + r for i in rng.sample(range(depth), rng.randint(0, 30))]
+        order = rng.choice(["asc", "desc", "shuffle"])
+        if plain:
+            cm, order = "s", "asc"
+            spine, branches = b"a" * depth, [b"a" * i + b"b" for i in range(depth)]
+        if order == "desc":
+            branches.reverse()
+        elif order == "shuffle":
+            rng.shuffle(branches)
+        keys = [spine] + branches if plain or rng.random() < 0.7 else branches[: depth // 2] + [spine] + branches[depth // 2:]
+        fill = [f"add k={hx(k)} v={(i + 1) if rng.random() < 0.9 else rand_val(rng)}" for i, k in enumerate(keys)]
+        return cm, fill, keys
+
+    def _fan(self, rng):
+        """130..200 different first bytes (1..255, the high half included), some with a second level fan"""
+        firsts = rng.sample(range(1, 256), rng.randint(130, 200))
+        if not any(c >= 0x80 for c in firsts):
+            firsts[0] = 0x80
+        order = rng.choice(["asc", "desc", "shuffle", "shuffle"])
+        if order == "asc":
+            firsts.sort()
+        elif order == "desc":
+            firsts.sort(reverse=True)
+        keys = [bytes([c]) for c in firsts]
+        for c in rng.sample(firsts, 25):
+            keys += [bytes([c, d]) for d in rng.sample(range(1, 256), rng.randint(1, 6))]
+        c0 = rng.choice(firsts)
+        keys += [bytes([c0, d]) for d in rng.sample(range(1, 256), 140) if bytes([c0, d]) not in keys]
+        cm = rng.choice(["s", "u", "r"])
+        fill = [f"add k={hx(k)} v={(i + 1) if rng.random() < 0.9 else rand_val(rng)}" for i, k in enumerate(keys)]
+        return cm, fill, keys
+
+    def _deep(self, rng):
+        """keys of length 300..420 sharing long prefixes; refused adds deep in the chain; branches along the spine"""
+        L = rng.randint(300, 420)
+        alpha = rng.choice([[0x61], [0x61, 0x62], list(range(1, 256)), [0x7f, 0x80, 0xff, 0x01]])
+        P = bytes(rng.choice(alpha) for _ in range(L))
+        keys = [P, P[: L // 2], P[: L - 1] + bytes([(P[-1] % 255) + 1]), P + b"zz", P[:1]]
+        for i in rng.sample(range(1, L), 40):
+            k = P[:i] + bytes([(P[i] + rng.randint(1, 254)) % 255 + 1]) + (b"" if rng.random() < 0.5 else b"tail")
+            if k not in keys and not P.startswith(k):
+                keys.append(k)
+        if rng.random() < 0.5:
+            rng.shuffle(keys)
+        fill = []
+        for i, k in enumerate(keys):
+            if i < 6 or rng.random() < 0.15:       # refused somewhere along the new chain: everything is rolled back
+                fill.append(f"add k={hx(k)} v=9 fail={rng.choice([1, 2, max(1, len(k) // 2), len(k), len(k) + 1])}")
+            fill.append(f"add k={hx(k)} v={i + 1}")
+        cm = rng.choice(["s", "s", "u"])
+        return cm, fill, keys
+
+    def _mixed(self, rng):
+        """a comb, a fan below its spine's first node and one deep key in one table"""
+        cm1, f1, k1 = self._comb(rng)
+        _, f2, k2 = self._fan(rng)
+        _, f3, k3 = self._deep(rng)
+        keys, seen = [], set()
+        for k in k1 + k2[:150] + k3[:12]:
+            if k not in seen:
+                seen.add(k); keys.append(k)
+        fill = [f"add k={hx(k)} v={i + 1}" for i, k in enumerate(keys)]
+        return cm1, fill, keys
 
     def near_miss(self, rng, present, fam):
         """a (probably absent) key close to a present one: proper prefix, extension, sibling character"""
